@@ -1,6 +1,9 @@
 package util
 
-import "time"
+import (
+	"sync"
+	"time"
+)
 
 type PidLoop struct {
 	// Proptional Constant
@@ -18,6 +21,9 @@ type PidLoop struct {
 	//differentialError float64
 	// last execution time of the loop
 	lastTime time.Time
+
+	// a PID curve can be evaluated by multiple fan controllers (and API requests) concurrently
+	mu sync.Mutex
 }
 
 func NewPidLoop(p float64, i float64, d float64) *PidLoop {
@@ -30,6 +36,9 @@ func NewPidLoop(p float64, i float64, d float64) *PidLoop {
 
 // Loop advances the pid loop
 func (p *PidLoop) Loop(target float64, measured float64) float64 {
+	p.mu.Lock()
+	defer p.mu.Unlock()
+
 	output := 0.0
 	err := target - measured
 
